@@ -63,6 +63,40 @@ def _solid(s):
     return out
 
 
+def _scell(s, classes):
+    """partition cell of a string argument: VP_LMIN <= len(s) <= VP_LMAX, optionally the class (index in
+    `classes`, len(classes) = anything else) of its first / second character (VP_C0 / VP_C1)"""
+    lo, hi = R.env_int("VP_LMIN"), R.env_int("VP_LMAX")
+    if lo is not None and len(s) < lo:
+        return False
+    if hi is not None and len(s) > hi:
+        return False
+    c0 = R.env_int("VP_C0")
+    if c0 is not None and (len(s) < 1 or R.cls_of(s[0], classes) != c0):
+        return False
+    c1 = R.env_int("VP_C1")
+    if c1 is not None and (len(s) < 2 or R.cls_of(s[1], classes) != c1):
+        return False
+    return True
+
+
+def _cells(n, classes, one_upto, split1_from=None, split2_from=None, minlen=0, extra=None):
+    """disjoint cover of minlen <= len <= n: one cell for minlen..one_upto, then one per length, lengths
+    >= split1_from split by the class of the first character, >= split2_from also by the second"""
+    k = len(classes) + 1
+    cells = []
+    if one_upto >= minlen:
+        cells.append({"VP_LMIN": minlen, "VP_LMAX": min(one_upto, n)})
+    for L in range(max(one_upto + 1, minlen), n + 1):
+        if split2_from is not None and L >= max(split2_from, 2):
+            cells += [{"VP_LMIN": L, "VP_LMAX": L, "VP_C0": a, "VP_C1": b} for a in range(k) for b in range(k)]
+        elif split1_from is not None and L >= max(split1_from, 1):
+            cells += [{"VP_LMIN": L, "VP_LMAX": L, "VP_C0": a} for a in range(k)]
+        else:
+            cells.append({"VP_LMIN": L, "VP_LMAX": L})
+    return R.product_cells(cells, extra) if extra else cells
+
+
 def _digits_limited(s, allowed):
     """every ASCII digit of s is one of `allowed` (keeps the solver's enumeration of *accepted* numerals small)"""
     for ch in s:
@@ -80,7 +114,7 @@ def _kf_cf_nan(s):
 def conversion_factor_rule(s: str) -> bool:
     """
     pre: len(s) <= R.N(4)
-    pre: R.scell(s, _NUM_CLASSES)
+    pre: _scell(s, _NUM_CLASSES)
     pre: R.ascii_printable(s)
     pre: _digits_limited(s, "019")
     pre: not _kf_cf_nan(s)  # TEMP-HARDWIRED
@@ -94,7 +128,7 @@ def conversion_factor_rule(s: str) -> bool:
 def numeric_value_rule(s: str) -> bool:
     """
     pre: len(s) <= R.N(4)
-    pre: R.scell(s, _NUM_CLASSES)
+    pre: _scell(s, _NUM_CLASSES)
     pre: R.ascii_printable(s)
     pre: _digits_limited(s, "019")
     post: _
@@ -104,14 +138,14 @@ def numeric_value_rule(s: str) -> bool:
     return _agree(issues, ref.numeric_value_expect(s))
 
 
-_NUM_CLASSES = ["0", "1", "9", "-", "+", ".", " "]
+_NUM_CLASSES = ["-", "+", ".", " "]
 
 
 # ------------------------------------------------------------------------------------------ allowedCharacter
 def allowed_characters_rule(v: str) -> bool:
     """
     pre: len(v) <= R.N(5)
-    pre: R.scell(v, _LIST_CLASSES)
+    pre: _scell(v, _LIST_CLASSES)
     post: _
     """
     v = _solid(v)
@@ -127,7 +161,7 @@ def in_library_rule(v: str, libs: str) -> bool:
     """
     pre: 1 <= len(v) <= R.N(3)
     pre: len(libs) <= R.M(5)
-    pre: R.scell(libs, _LIST_CLASSES)
+    pre: _scell(libs, _LIST_CLASSES)
     post: _
     """
     v, libs = _solid(v), _solid(libs)
@@ -139,7 +173,7 @@ def in_library_rule(v: str, libs: str) -> bool:
 def placeholder_rule(name: str, has_parent: bool, n_sib: int, n_child: int) -> bool:
     """
     pre: len(name) <= R.N(4)
-    pre: R.scell(name, ["/", "#"])
+    pre: _scell(name, ["/", "#"])
     pre: 0 <= n_sib <= 2
     pre: 0 <= n_child <= 2
     post: _
@@ -295,7 +329,7 @@ def _make_sections():
     unit_classes = HedSchemaSection(HedSectionKey.UnitClasses)
     value_classes = HedSchemaSection(HedSectionKey.ValueClasses)
     for sec in (unit_classes, value_classes):
-        for name, dep in (("uC", False), ("v", False), ("dC", True)):
+        for name, dep in (("u", False), ("v", False), ("d", True)):
             e = sec._create_tag_entry(name)
             if dep:
                 e.attributes[HedKey.DeprecatedFrom] = "8.0.0"
@@ -304,17 +338,18 @@ def _make_sections():
 
 
 _ITEM_SCHEMA = _make_sections()
+_ITEM_CLASSES = [",", "/", "A", "a"]
 _KINDS = [HedSectionKey.Tags, HedSectionKey.UnitClasses, HedSectionKey.ValueClasses]
 _TAG_SPELLINGS = ["A", "A/B", "B", "A/D", "D"]          # short names, long names (the section offers both)
 _TAG_DEPRECATED = ["A/D", "D"]
-_CLASS_NAMES = ["uC", "v", "dC"]
-_CLASS_DEPRECATED = ["dC"]
+_CLASS_NAMES = ["u", "v", "d"]
+_CLASS_DEPRECATED = ["d"]
 
 
 def item_exists_rule(v: str, holder_deprecated: bool) -> bool:
     """
     pre: len(v) <= R.N(4)
-    pre: R.scell(v, [",", "/", "A", "a"])
+    pre: _scell(v, _ITEM_CLASSES)
     pre: R.ascii_printable(v)
     post: _
     """
@@ -350,7 +385,7 @@ def _kf_old_zero(prev, old):
 def hed_id_rule(body: str, lib: bool, prev: int, old: str, has_range: bool, lo: int, hi: int) -> bool:
     """
     pre: len(body) <= R.N(2)
-    pre: R.scell(body, ["0", "1", "-", " "])
+    pre: _scell(body, ["0", "1", "-", " "])
     pre: R.ascii_printable(body)
     pre: 0 <= prev <= 3 and (prev == 3) == (R.env_int("VP_PREV", 0) == 1)
     pre: 1 <= len(old) <= R.M(1)
@@ -400,7 +435,7 @@ def _extra_key():
 def term_characters_rule(t: str) -> bool:
     """
     pre: 1 <= len(t) <= R.N(4)
-    pre: R.scell(t, _CHAR_CLASSES)
+    pre: _scell(t, _CHAR_CLASSES)
     post: _
     """
     t = _solid(t)
@@ -416,7 +451,7 @@ def term_characters_rule(t: str) -> bool:
 def description_characters_rule(t: str) -> bool:
     """
     pre: len(t) <= R.N(4)
-    pre: R.scell(t, _CHAR_CLASSES)
+    pre: _scell(t, _CHAR_CLASSES)
     post: _
     """
     t = _solid(t)
@@ -434,7 +469,7 @@ def problem_indexes_rule(t: str, allowed: str, nonascii: bool, adj: int) -> bool
     """
     pre: len(t) <= R.N(4)
     pre: len(allowed) <= R.M(2)
-    pre: R.scell(t, _CHAR_CLASSES)
+    pre: _scell(t, _CHAR_CLASSES)
     pre: -3 <= adj <= 3
     post: _
     """
@@ -469,34 +504,29 @@ _STUB_VERSIONS = ("hed_cache.get_hed_versions is replaced, inside schema_attribu
 _CHSET = "vp/chset.py: one-character membership in a concrete set asked as one disjunction (exact)"
 
 
-def _cells(n, classes, split1_from=None, split2_from=None, minlen=0, extra=None):
-    cells = R.str_cells(n, split1_from, split2_from, nclass=len(classes) + 1, minlen=minlen)
-    return R.product_cells(cells, extra) if extra else cells
-
-
 HARNESSES = [
     R.H("conversion_factor_rule", [_AV + "conversion_factor"],
-        quick=R.tier(cells=_cells(3, _NUM_CLASSES, split1_from=3), env={"VP_N": 3}, timeout=150,
+        quick=R.tier(cells=_cells(3, _NUM_CLASSES, 2, split1_from=3), env={"VP_N": 3}, timeout=200,
                      bound="every printable-ASCII value of <= 3 characters whose digits are among 0,1,9"),
-        thorough=R.tier(cells=_cells(4, _NUM_CLASSES, split1_from=3, split2_from=4), env={"VP_N": 4}, timeout=900,
+        thorough=R.tier(cells=_cells(4, _NUM_CLASSES, 2, split1_from=3, split2_from=4), env={"VP_N": 4}, timeout=900,
                         bound="every printable-ASCII value of <= 4 characters whose digits are among 0,1,9"),
         what="positive decimal / scientific / '^' numerals give no issue; zero, negative, NaN and non-numeric text give "
              "exactly SCHEMA_ATTRIBUTE_VALUE_INVALID; never raises",
         oracle="models/compliance_ref.py conversion_factor_expect (own numeral grammar; parser leniencies undecided)",
         stubs=[_STUB_ENTRY, _CHNUM_F], outside="non-ASCII numerals; longer values; non-string attribute values"),
     R.H("numeric_value_rule", [_AV + "is_numeric_value"],
-        quick=R.tier(cells=_cells(3, _NUM_CLASSES, split1_from=3), env={"VP_N": 3}, timeout=150,
+        quick=R.tier(cells=_cells(3, _NUM_CLASSES, 2, split1_from=3), env={"VP_N": 3}, timeout=200,
                      bound="every printable-ASCII value of <= 3 characters whose digits are among 0,1,9"),
-        thorough=R.tier(cells=_cells(4, _NUM_CLASSES, split1_from=3, split2_from=4), env={"VP_N": 4}, timeout=900,
+        thorough=R.tier(cells=_cells(4, _NUM_CLASSES, 2, split1_from=3, split2_from=4), env={"VP_N": 4}, timeout=900,
                         bound="every printable-ASCII value of <= 4 characters whose digits are among 0,1,9"),
         what="decimal / scientific numerals give no issue, non-numeric text gives exactly "
              "SCHEMA_ATTRIBUTE_VALUE_INVALID; never raises",
         oracle="models/compliance_ref.py numeric_value_expect", stubs=[_STUB_ENTRY, _CHNUM_F],
         outside="non-ASCII numerals; longer values"),
     R.H("allowed_characters_rule", [_AV + "allowed_characters_check"],
-        quick=R.tier(cells=_cells(5, _LIST_CLASSES, split1_from=4), env={"VP_N": 5}, timeout=150,
+        quick=R.tier(cells=_cells(5, _LIST_CLASSES, 4), env={"VP_N": 5}, timeout=200,
                      bound="every Unicode value of <= 5 characters"),
-        thorough=R.tier(cells=_cells(7, _LIST_CLASSES, split1_from=4, split2_from=6), env={"VP_N": 7}, timeout=900,
+        thorough=R.tier(cells=_cells(7, _LIST_CLASSES, 4, split1_from=6, split2_from=7), env={"VP_N": 7}, timeout=900,
                         bound="every Unicode value of <= 7 characters"),
         what="one SCHEMA_ATTRIBUTE_VALUE_INVALID per comma-separated item that is neither a single character nor a "
              "character-group name; otherwise no issue",
@@ -504,19 +534,19 @@ HARNESSES = [
         stubs=[_STUB_ENTRY], outside="group names longer than the bound (e.g. 'alphanumeric') are only seen rejected "
                                      "when misspelt within the bound"),
     R.H("in_library_rule", [_AV + "in_library_check"],
-        quick=R.tier(cells=_cells(5, _LIST_CLASSES, split1_from=4), env={"VP_N": 3, "VP_M": 5}, timeout=150,
+        quick=R.tier(cells=_cells(5, _LIST_CLASSES, 4), env={"VP_N": 3, "VP_M": 5}, timeout=200,
                      bound="every Unicode inLibrary value of 1..3 characters x every header library text of <= 5"),
-        thorough=R.tier(cells=_cells(7, _LIST_CLASSES, split1_from=4, split2_from=6), env={"VP_N": 4, "VP_M": 7},
+        thorough=R.tier(cells=_cells(7, _LIST_CLASSES, 4, split1_from=6, split2_from=7), env={"VP_N": 4, "VP_M": 7},
                         timeout=900,
                         bound="every inLibrary value of 1..4 characters x every header library text of <= 7"),
         what="no issue iff the value is one of the comma-separated library names of the schema header, otherwise "
              "exactly SCHEMA_ATTRIBUTE_VALUE_INVALID",
         oracle="models/compliance_ref.py in_library_expect", stubs=[_STUB_ENTRY], outside="longer names"),
     R.H("placeholder_rule", [_AV + "tag_is_placeholder_check"],
-        quick=R.tier(cells=_cells(4, ["/", "#"], split1_from=4), env={"VP_N": 4}, timeout=150,
+        quick=R.tier(cells=_cells(4, ["/", "#"], 4), env={"VP_N": 4}, timeout=200,
                      bound="every Unicode node name of <= 4 characters; parent present or not; 0..2 siblings; "
                            "0..2 children"),
-        thorough=R.tier(cells=_cells(6, ["/", "#"], split1_from=4), env={"VP_N": 6}, timeout=900,
+        thorough=R.tier(cells=_cells(6, ["/", "#"], 4, split1_from=6), env={"VP_N": 6}, timeout=900,
                         bound="every node name of <= 6 characters; parent present or not; 0..2 siblings; 0..2 children"),
         what="a node whose name does not end in '/#' carrying a class attribute gives SCHEMA_ATTRIBUTE_VALUE_INVALID; "
              "siblings / children of a placeholder give SCHEMA_ATTRIBUTE_INVALID each; nothing else is reported",
@@ -550,12 +580,12 @@ HARNESSES = [
         outside="more than two children"),
     R.H("item_exists_rule", [_AV + "item_exists_check", "hed.schema.hed_schema_section.HedSchemaTagSection.get",
                              "hed.schema.hed_schema_section.HedSchemaSection.get"],
-        quick=R.tier(cells=_cells(4, [",", "/", "A", "a"], split1_from=3, extra=R.int_cells("VP_KIND", 0, 2)),
-                     env={"VP_N": 4}, timeout=150,
-                     bound="every printable-ASCII list value of <= 4 characters against a tag section {A, A/B, "
-                           "A/D(deprecated)} and unit-/value-class sections {uC, v, dC(deprecated)}; holder "
+        quick=R.tier(cells=_cells(3, [",", "/", "A", "a"], 3, extra=R.int_cells("VP_KIND", 0, 2)),
+                     env={"VP_N": 3}, timeout=200,
+                     bound="every printable-ASCII list value of <= 3 characters against a tag section {A, A/B, "
+                           "A/D(deprecated)} and unit-/value-class sections {u, v, d(deprecated)}; holder "
                            "deprecated or not"),
-        thorough=R.tier(cells=_cells(5, [",", "/", "A", "a"], split1_from=3, split2_from=5,
+        thorough=R.tier(cells=_cells(5, [",", "/", "A", "a"], 3, split1_from=4, split2_from=5,
                                      extra=R.int_cells("VP_KIND", 0, 2)),
                         env={"VP_N": 5}, timeout=900, bound="as quick with values of <= 5 characters"),
         what="one SCHEMA_ATTRIBUTE_VALUE_INVALID per non-empty item that names nothing in the section; one "
@@ -568,12 +598,12 @@ HARNESSES = [
         outside="the 1200-tag tables of the bundled schemas; non-ASCII item names"),
     R.H("hed_id_rule", ["hed.schema.schema_attribute_validator_hed_id.HedIDValidator.verify_tag_id",
                         "hed.schema.schema_io.df_util.remove_prefix"],
-        quick=R.tier(cells=_cells(2, ["0", "1", "-", " "], split1_from=2, extra=R.int_cells("VP_PREV", 0, 1)),
-                     env={"VP_N": 2, "VP_M": 1}, timeout=170,
+        quick=R.tier(cells=_cells(2, ["0", "1", "-", " "], 1, extra=R.int_cells("VP_PREV", 0, 1)),
+                     env={"VP_N": 2, "VP_M": 1}, timeout=300,
                      bound="hedId = 'HED_' + every printable-ASCII text of <= 2 characters; previous version absent / "
                            "element new / element without id / element with id HED_d (any digit); id range absent or "
                            "any 0 <= lo <= hi <= 1000; element of the standard schema or of library 'lib'"),
-        thorough=R.tier(cells=_cells(3, ["0", "1", "-", " "], split1_from=2, split2_from=3,
+        thorough=R.tier(cells=_cells(3, ["0", "1", "-", " "], 1, split1_from=2, split2_from=3,
                                      extra=R.int_cells("VP_PREV", 0, 1)),
                         env={"VP_N": 3, "VP_M": 2}, timeout=1100, path_timeout=60,
                         bound="as quick with <= 3 characters after 'HED_', previous ids of 1..2 digits, ranges up to 10000"),
@@ -588,11 +618,11 @@ HARNESSES = [
     R.H("term_characters_rule", ["hed.schema.schema_validation_util.validate_schema_term_new",
                                  "hed.schema.schema_validation_util.get_allowed_characters_by_name",
                                  "hed.schema.schema_validation_util.get_problem_indexes"],
-        quick=R.tier(cells=_cells(4, _CHAR_CLASSES, split1_from=4, minlen=1, extra=R.int_cells("VP_EXTRA", 0, 2)),
-                     env={"VP_N": 4}, timeout=150,
+        quick=R.tier(cells=_cells(4, _CHAR_CLASSES, 3, minlen=1, extra=R.int_cells("VP_EXTRA", 0, 2)),
+                     env={"VP_N": 4}, timeout=200,
                      bound="every Unicode term of 1..4 characters; entry allowedCharacter absent / 'blank' / "
                            "'colon,slash'"),
-        thorough=R.tier(cells=_cells(6, _CHAR_CLASSES, split1_from=4, split2_from=6, minlen=1,
+        thorough=R.tier(cells=_cells(6, _CHAR_CLASSES, 3, split1_from=5, split2_from=6, minlen=1,
                                      extra=R.int_cells("VP_EXTRA", 0, 2)),
                         env={"VP_N": 6}, timeout=900, bound="as quick with terms of 1..6 characters"),
         what="one SCHEMA_CHARACTER_INVALID per character outside letters, digits, '-', '.', '_', the entry's own "
@@ -601,19 +631,19 @@ HARNESSES = [
         stubs=[_STUB_ENTRY, _CHSET], outside="symbolic allowedCharacter on the checked entry (it is hashed)"),
     R.H("description_characters_rule", ["hed.schema.schema_validation_util.validate_schema_description_new",
                                         "hed.schema.schema_validation_util.get_problem_indexes"],
-        quick=R.tier(cells=_cells(4, _CHAR_CLASSES, split1_from=4), env={"VP_N": 4}, timeout=150,
+        quick=R.tier(cells=_cells(4, _CHAR_CLASSES, 3), env={"VP_N": 4}, timeout=200,
                      bound="every Unicode description of <= 4 characters"),
-        thorough=R.tier(cells=_cells(6, _CHAR_CLASSES, split1_from=4, split2_from=6), env={"VP_N": 6}, timeout=900,
+        thorough=R.tier(cells=_cells(6, _CHAR_CLASSES, 3, split1_from=5, split2_from=6), env={"VP_N": 6}, timeout=900,
                         bound="every Unicode description of <= 6 characters"),
         what="one SCHEMA_CHARACTER_INVALID per ASCII character that is not printable or is one of [ ] { }; commas and "
              "non-ASCII text are accepted",
         oracle="models/compliance_ref.py description_problem_positions", stubs=[_STUB_ENTRY, _CHSET],
         outside="longer descriptions"),
     R.H("problem_indexes_rule", ["hed.schema.schema_validation_util.get_problem_indexes"],
-        quick=R.tier(cells=_cells(4, _CHAR_CLASSES, split1_from=4), env={"VP_N": 4, "VP_M": 2}, timeout=150,
-                     bound="every Unicode text of <= 4 characters x every character set of <= 2 symbolic characters "
+        quick=R.tier(cells=_cells(3, _CHAR_CLASSES, 2), env={"VP_N": 3, "VP_M": 2}, timeout=200,
+                     bound="every Unicode text of <= 3 characters x every character set of <= 2 symbolic characters "
                            "(+ optional 'nonascii') x index adjustment -3..3"),
-        thorough=R.tier(cells=_cells(5, _CHAR_CLASSES, split1_from=4, split2_from=5), env={"VP_N": 5, "VP_M": 3},
+        thorough=R.tier(cells=_cells(5, _CHAR_CLASSES, 2, split1_from=4, split2_from=5), env={"VP_N": 5, "VP_M": 3},
                         timeout=900, bound="text <= 5, character set <= 3"),
         what="returns exactly the (character, index + adjustment) pairs, in order, of characters not in the set "
              "(code points > 127 exempt when the set contains 'nonascii'); an empty set restricts nothing",
